@@ -57,6 +57,21 @@ pub fn check(c: &Case, rec: &mut Rec) -> CheckResult {
     oracle::check_lookups(&built.bytes, &c.input.pairs, &probes)
 }
 
+/// One large file, probed with a sample of keys and their variations.
+fn check_big(r: &gen::Recipe, rec: &mut Rec) -> CheckResult {
+    let pairs = r.pairs();
+    let set = r.values == 0;
+    let bytes = gen::build_plain(&pairs, set).map_err(|m| crate::engine::Fail::new("build-error", m))?;
+    // probes: a sample of keys, their prefixes, extensions and substitutions
+    let step = (pairs.len() / 3000).max(1);
+    let sample: gen::Pairs = pairs.iter().step_by(step).cloned().collect();
+    let (probes, _) = oracle::probes(&sample, false, &[]);
+    rec.evals(probes.len() as u64);
+    rec.class(if bytes.len() > 1 << 24 { "file_over_16MiB" } else if bytes.len() > 1 << 16 { "file_over_64KiB" } else { "file_small" });
+    rec.nontrivial(H::new().u(r.n).u(r.seed).u(0x02).get());
+    oracle::check_lookups(&bytes, &pairs, &probes)
+}
+
 pub fn run(e: &Engine) {
     e.set_rule("cases are (built FST, probe set); probes are constructed from the model: every key, every proper prefix, one-byte extensions, single-byte substitutions at every position (all 255 replacement bytes in the enumerated scopes), all 256 bytes below wide nodes, random strings; evaluations counts probes (each probe is checked through 5 lookup APIs); non-trivial = FST with >= 2 keys whose probe set contains an absent proper prefix, an absent extension and an absent substitution; distinct by (FST hash, extra probes)");
     e.assume("model membership (BTreeMap) is the specification");
@@ -92,26 +107,17 @@ pub fn run(e: &Engine) {
     // large files: address deltas of 2, 3 (and once 4) bytes on the lookup path
     let mut big: Vec<gen::Recipe> = (0..e.tier.pick(6u64, 24)).map(|i| gen::Recipe { kind: (1 + i % 3) as u8, n: 30_000 + i * 17_000, seed: crate::engine::mix(e.seed, i), fanout: 3 + (i % 6) as u8, keylen: 10 + (i % 9) as u8, values: (i % 4) as u8 }).collect();
     big.push(gen::Recipe { kind: 1, n: e.tier.pick(2_300_000, 4_000_000), seed: e.seed ^ 0x16, fanout: 16, keylen: 12, values: 2 });
-    e.run_list("large-files-sampled-probes", &big, |r| r.to_json(), |r, rec| {
-        let pairs = r.pairs();
-        let set = r.values == 0;
-        let bytes = gen::build_plain(&pairs, set).map_err(|m| crate::engine::Fail::new("build-error", m))?;
-        // probes: a sample of keys, their prefixes, extensions and substitutions
-        let step = (pairs.len() / 3000).max(1);
-        let sample: gen::Pairs = pairs.iter().step_by(step).cloned().collect();
-        let (probes, _) = oracle::probes(&sample, false, &[]);
-        rec.evals(probes.len() as u64);
-        rec.class(if bytes.len() > 1 << 24 { "file_over_16MiB" } else if bytes.len() > 1 << 16 { "file_over_64KiB" } else { "file_small" });
-        rec.nontrivial(H::new().u(r.n).u(r.seed).u(0x02).get());
-        oracle::check_lookups(&bytes, &pairs, &probes)
-    });
+    e.run_list("large-files-sampled-probes", &big, |r| r.to_json(), |r, rec| check_big(r, rec));
     e.require_class("file_over_64KiB", 1);
     e.require_class("file_over_16MiB", 1);
     e.require_class("fanout_over_32(index table)", 1);
     e.require_class("fanout_9..32(linear scan)", 1);
 }
 
-pub fn replay(_sub: &str, case: &Value) -> Option<CheckResult> {
+pub fn replay(sub: &str, case: &Value) -> Option<CheckResult> {
     let mut rec = Rec::new(0);
+    if sub == "large-files-sampled-probes" {
+        return Some(crate::engine::guarded(|| check_big(&gen::Recipe::from_json(case).ok_or_else(bad)?, &mut rec)));
+    }
     Some(crate::engine::guarded(|| check(&Case::from_json(case).ok_or_else(bad)?, &mut rec)))
 }
